@@ -156,7 +156,12 @@ Definition intdiv_ty (l r : ty) : ty := if is_unsigned l || is_unsigned r then T
 
 Definition coalesce_ty (a b : ty) : ty :=
   match b with TNull => a | _ =>
-  match a with TNull => b | _ =>      (* GetConvertToType(Null, r) = GetConvertToType(r, r) *)
+  match a with
+  | TNull =>                          (* GetConvertToType(Null, r) = GetConvertToType(r, r) *)
+    if is_decimal b then b else if is_unsigned b then (if is_k b U64 then TInt U64 else TInt U32)
+    else if is_signed b then (if is_k b I64 then TInt I64 else TInt I32)
+    else match b with TDbl => TDbl | _ => TStr end
+  | _ =>
   if ty_equals a b then a
   else if (is_signed a && is_unsigned b) || (is_unsigned a && is_signed b) then TDec 20 0
   else if negb (is_number a) || negb (is_number b) then
@@ -170,7 +175,10 @@ Definition coalesce_ty (a b : ty) : ty :=
   end end.
 
 Definition greatest_ty (a b : ty) : ty :=
-  if is_integer a && is_integer b then TInt I64 else if is_text a && is_text b then TStr else TDbl.
+  match a, b with
+  | TNull, _ | _, TNull => TNull
+  | _, _ => if is_integer a && is_integer b then TInt I64 else if is_text a && is_text b then TStr else TDbl
+  end.
 
 Definition cast_ty (t : ctarget) : ty :=
   match t with CSigned => TInt I64 | CUnsigned => TInt U64 | CDecimal p s => TDec p s | CChar => TStr end.
